@@ -54,6 +54,9 @@ def run(ctx):
     ctx.rule('R17.6', 'converters use their element only through .get(key[, default])', 6)
     ctx.rule('R17.7', 'Document.CONVERSIONS, SaxDocument.sax_parse and svg2paths handle the same 7 tags with the same converters', 1)
     ctx.rule('R17.8', 'every CSS/SVG number is accepted by both number groups of COORD_PAIR_TMPLT', 2)
+    ctx.rule('R17.9', 'a wrapper that hands one of its defaulted options to a same-package function which has an option of the same name '
+             'binds it to that option, not to a different option the wrapper also has (resolved positional / keyword binding)', 14)
+    _option_forwarding(ctx, mdl)
     ob = lambda r: Obligation(ctx, r)
     V = [Rat.sym('v%d' % i) for i in range(6)]
     fhook = {'ext_hooks': {'builtins.float': sym_float_hook}}
@@ -222,6 +225,48 @@ def run(ctx):
 
 
 # ---------------------------------------------------------------------------------------------------
+def _defaulted(fn):
+    a = fn.node.args
+    pos = a.posonlyargs + a.args
+    names = [x.arg for x in pos[len(pos) - len(a.defaults):]] if a.defaults else []
+    names += [x.arg for x, d in zip(a.kwonlyargs, a.kw_defaults) if d is not None]
+    return set(names)
+
+
+def _option_forwarding(ctx, mdl):
+    """R17.9: every call W -> F between package functions is resolved; for each bare-name argument that is a defaulted option p
+    of W (never re-assigned in W) the parameter q of F it binds to is computed.  p bound to q != p while F has an option p and
+    W has an option q is a swapped hand-over: the wrapper then answers for the wrong option (e.g. polylines kept when polygons
+    were asked for).  Calls with *args / **kwargs are skipped."""
+    for w in sorted(mdl.all_functions(), key=lambda f: f.qualname):
+        if w.outer is not None:
+            continue
+        wopts = _defaulted(w)
+        if len(wopts) < 2:
+            continue
+        stored = {n.id for n in ast.walk(w.node) if isinstance(n, ast.Name) and isinstance(n.ctx, (ast.Store, ast.Del))}
+        for call in ast.walk(w.node):
+            if not isinstance(call, ast.Call) or not isinstance(call.func, ast.Name):
+                continue
+            if any(isinstance(x, ast.Starred) for x in call.args) or any(k.arg is None for k in call.keywords):
+                continue
+            r = mdl.resolve_global(w.module, call.func.id)
+            if not r or r[0] != 'func' or r[1] is w:
+                continue
+            f = r[1]
+            fopts = _defaulted(f)
+            fpos = f.params()
+            bind = [(fpos[i], x) for i, x in enumerate(call.args) if i < len(fpos)] + [(k.arg, k.value) for k in call.keywords]
+            for q, x in bind:
+                if not (isinstance(x, ast.Name) and x.id in wopts and x.id not in stored and x.id in fopts):
+                    continue
+                p = x.id
+                bad = q != p and q in wopts and q in fopts
+                ctx.record('R17.9', w.qualname, '%s -> %s(%s=)' % (p, f.name, p), not bad,
+                           detail='' if not bad else "option %r is handed to %s's option %r (both functions have both options)" % (p, f.name, q),
+                           where='%s:%d' % (w.file, call.lineno))
+
+
 def _sym_matrix(tag):
     return Arr([[Rat.sym('%s%d%d' % (tag, i, j)) for j in range(3)] for i in range(3)])
 
